@@ -150,6 +150,18 @@ func (u *upgA) compressAnnounce(rule string) {
 		if wSet != rSet {
 			ok, why = false, "only one of the two compression functions is installed"
 		}
+		// an extension header supplied by the application is never copied into the 101 (the client would act on an
+		// announcement the server's Conn knows nothing about): every successful path knows it to be absent
+		appExtAbsent := hasLit(p, len(p.Lits), false, func(t *core.Term) bool {
+			if t.Kind != core.KExtract || t.N != 1 || t.Args[0].Kind != core.KLookup {
+				return false
+			}
+			k, isK := t.Args[0].Args[1].StrVal()
+			return isK && k == "Sec-Websocket-Extensions" && strip(t.Args[0].Args[0]).Kind == core.KParam
+		})
+		if !appExtAbsent {
+			ok, why = false, "Upgrade succeeds at "+c.P.Pos(p.Ret.Pos())+" without having excluded an application-supplied Sec-Websocket-Extensions response header: it is copied into the 101 response, the client enables compression and the server does not"
+		}
 		if announced != (wSet && rSet) {
 			ok, why = false, "the 101 response "+map[bool]string{true: "announces", false: "does not announce"}[announced]+" permessage-deflate but the connection is "+map[bool]string{true: "", false: "not "}[wSet && rSet]+"set up to use it (path returning at "+c.P.Pos(p.Ret.Pos())+")"
 		}
